@@ -295,6 +295,28 @@ def run(ctx):
         if len(vals) < 2 or len(dels) < 2:
             continue
 
+        # ---- re-use: the option objects above have just been valued under (dom, forc, model); under OTHER market data
+        # (same date and spot) they must give exactly what a fresh object gives — no premium/greek carried between calls
+        if ci % 3 == 0:
+            model2 = BlackScholes(vol * rng.choice([0.5, 0.8, 1.3, 1.9]))
+            dom2 = make_curve(vd, min(0.20, r_d + rng.choice([-0.01, 0.015])), kind, rng)
+            cnt['reuse'] = cnt.get('reuse', 0) + 2
+            for ty in (1, 2):
+                fresh = FXVanillaOption(ed, K, pair, OT[ty], notional, prem, sd)
+                try:
+                    du = opt[ty].delta(vd, S, dom2, forc, model2)
+                    df_ = fresh.delta(vd, S, dom2, forc, model2)
+                    vu = opt[ty].value(vd, S, dom2, forc, model2)
+                    vf = fresh.value(vd, S, dom2, forc, model2)
+                    a = [float(du[k]) for k in DELTA_KEYS] + [float(vu[k]) for k in VALUE_KEYS]
+                    b = [float(df_[k]) for k in DELTA_KEYS] + [float(vf[k]) for k in VALUE_KEYS]
+                except Exception as e:  # noqa: BLE001
+                    a, b = err_kind(e), None
+                if a != b:
+                    viol(ctx, 'a re-used FXVanillaOption (valued before under other market data) differs from a fresh object',
+                         {**base, 'ty': ty, 'vol_second_call': float(model2.volatility) if hasattr(model2, 'volatility') else None,
+                          'reused': a, 'fresh': b, 'keys': DELTA_KEYS + VALUE_KEYS}, 'reuse:fresh-object')
+
         # ---- premium views are one number (pure relations between the returned keys)
         for ty in (1, 2):
             r = vals[ty]
